@@ -10,11 +10,11 @@ import (
 	"testing"
 
 	"github.com/cocosip/go-dicom-codecs/codec"
-	"github.com/cocosip/go-dicom-codecs/jpeg2000"
 	_ "github.com/cocosip/go-dicom-codecs/jpeg/baseline"
 	_ "github.com/cocosip/go-dicom-codecs/jpeg/extended"
 	_ "github.com/cocosip/go-dicom-codecs/jpeg/lossless"
 	_ "github.com/cocosip/go-dicom-codecs/jpeg/lossless14sv1"
+	"github.com/cocosip/go-dicom-codecs/jpeg2000"
 	_ "github.com/cocosip/go-dicom-codecs/jpeg2000/htj2k"
 	_ "github.com/cocosip/go-dicom-codecs/jpeg2000/lossless"
 	_ "github.com/cocosip/go-dicom-codecs/jpeg2000/lossy"
@@ -35,12 +35,12 @@ const ID = "C10"
 func TestMain(m *testing.M) { core.Main(m, ID) }
 
 type syntax struct {
-	Key        string
-	TS         *transfer.Syntax
-	Lossless   bool
+	Key          string
+	TS           *transfer.Syntax
+	Lossless     bool
 	MinBS, MaxBS int
-	BS8or12    bool // Extended: precision classes 8 / 12
-	J2K        bool
+	BS8or12      bool // Extended: precision classes 8 / 12
+	J2K          bool
 }
 
 var syntaxes = []syntax{
@@ -76,10 +76,11 @@ type Frame struct {
 }
 
 // Action is one step of the history.
-//   encode:    Encode the frames Seq (indices into Pool) in one call
-//   decode:    Decode the encoded forms of Seq in one call
-//   encobj:    one jpeg2000.Encoder object, Encode each frame of Seq in turn (J2K syntaxes)
-//   decobj:    one jpeg2000.Decoder object fed the streams Streams in turn
+//
+//	encode:    Encode the frames Seq (indices into Pool) in one call
+//	decode:    Decode the encoded forms of Seq in one call
+//	encobj:    one jpeg2000.Encoder object, Encode each frame of Seq in turn (J2K syntaxes)
+//	decobj:    one jpeg2000.Decoder object fed the streams Streams in turn
 type Action struct {
 	Kind    string
 	Seq     []int    `json:",omitempty"`
@@ -87,13 +88,13 @@ type Action struct {
 }
 
 type Case struct {
-	Syntax        string
-	W, H          int
-	BA, BS, SPP   int
-	Signed        bool `json:",omitempty"`
-	Planar        int  `json:",omitempty"`
-	Pool          []Frame
-	Actions       []Action
+	Syntax      string
+	W, H        int
+	BA, BS, SPP int
+	Signed      bool `json:",omitempty"`
+	Planar      int  `json:",omitempty"`
+	Pool        []Frame
+	Actions     []Action
 }
 
 var frameClasses = []string{"noise", "constant", "gradient", "twolevel", "runs", "extremes"}
@@ -185,13 +186,13 @@ func (c *Case) frameBytes(i int) []byte {
 }
 
 type env struct {
-	c       *Case
-	sx      *syntax
-	cd      dcodec.Codec
-	info    *imagetypes.FrameInfo
-	frames  [][]byte
-	encOne  [][]byte // model: fresh single-frame encode
-	decOne  [][]byte // model: fresh single-frame decode of encOne[i]
+	c      *Case
+	sx     *syntax
+	cd     dcodec.Codec
+	info   *imagetypes.FrameInfo
+	frames [][]byte
+	encOne [][]byte // model: fresh single-frame encode
+	decOne [][]byte // model: fresh single-frame decode of encOne[i]
 }
 
 func (e *env) encodeFrames(idx []int) ([][]byte, [][]byte, error) {
